@@ -70,26 +70,12 @@ SEV = {"DepSkip": 0, "Skip": 1, "Ok": 2, "Retry": 3, "PermFail": 4}
 # values <-> tagged trees <-> Gallina
 # --------------------------------------------------------------------------
 
-def error_td(err) -> bool:
-    """Does celpy's tree_dump succeed on this error's tree (or has it none)?  koreo calls
-    tree_dump(err.tree) when it builds the PermFail; tree_dump raises IndexError on some trees."""
-    from celpy.celparser import tree_dump
-    tree = getattr(err, "tree", None)
-    if not tree:
-        return True
-    try:
-        tree_dump(tree)
-        return True
-    except Exception:
-        return False
-
-
 def tree_of(v):
     """Python / celpy value -> tagged tree (JSON-able)."""
     import celpy
     from celpy import celtypes
     if isinstance(v, celpy.CELEvalError):
-        return ["e", error_td(v)]
+        return ["e"]
     if v is None:
         return ["n"]
     if isinstance(v, (bool, celtypes.BoolType)):
@@ -125,7 +111,7 @@ def c_tree(t) -> str:
     if k == "o":
         return f"(VOther {cstr(t[1])})"
     if k == "e":
-        return f"(VErr {cbool(t[1] if len(t) > 1 else True)})"
+        return "VErr"
     if k == "l":
         return "(VList " + clist(t[1], c_tree) + ")"
     if k == "m":
@@ -135,7 +121,7 @@ def c_tree(t) -> str:
 
 def c_raw(r) -> str:
     if r[0] == "raise":
-        return f"(RRaise {cbool(r[1] if len(r) > 1 else True)})"
+        return "RRaise"
     if r[0] == "raise_other":
         return "RRaiseOther"
     return f"(RVal {c_tree(r[1])})"
@@ -189,35 +175,13 @@ class Builder:
         return {k: self.spec(d) for k, d in doc[1]}
 
 
-_TD_CACHE: dict = {}
-
-
-def leaf_td(src: str) -> bool:
-    """tree_dump-ability of the error VALUE a failing leaf expression yields (learned from celpy
-    once per expression: evaluate {"x": <expr>} and look at the embedded error's tree)."""
-    if src not in _TD_CACHE:
-        import celpy
-        from koreo.cel.functions import koreo_cel_functions
-        td = True
-        try:
-            env = cel_env()
-            prog = env.program(env.compile('{"x": ' + src.lstrip("=") + "}"), functions=koreo_cel_functions)
-            v = prog.evaluate({"inputs": celpy.json_to_cel({})})
-            if isinstance(v, dict) and isinstance(v.get("x"), celpy.CELEvalError):
-                td = error_td(v["x"])
-        except Exception:
-            td = True
-        _TD_CACHE[src] = td
-    return _TD_CACHE[src]
-
-
 def leaf_tree(leaf):
     k = leaf[0]
     if k in ("lit", "in"):
         return tree_of(leaf[1])
     if k == "cel":
         return tree_of(leaf[2])
-    return ["e", leaf_td(leaf[1])]    # err (and raise: never reaches the model as a value)
+    return ["e"]                # err (and raise: never reaches the model as a value)
 
 
 def doc_tree(doc):
@@ -283,8 +247,8 @@ def recording():
     def wrapped(self, *a, **kw):
         try:
             v = orig(self, *a, **kw)
-        except celpy.CELEvalError as e:
-            log.append((self, ["raise", error_td(e)]))
+        except celpy.CELEvalError:
+            log.append((self, ["raise"]))
             raise
         except BaseException:
             log.append((self, ["raise_other"]))
@@ -461,6 +425,26 @@ class SentinelApi:
 OWNER = ("ns", {"apiVersion": "v1", "kind": "Owner", "metadata": {"name": "o", "uid": "u-1", "namespace": "ns"}})
 
 
+_KIND_COUNTER = [0]
+
+
+def api_config(case, **extra):
+    """apiConfig for the case: with an explicit plural, or (case["lookup"]) for a FRESH custom kind
+    without `plural`, so that koreo has to ask the API server (`api.lookup_kind`) on first use —
+    which counts as touching the cluster.  The looked-up plural is cached on the kr8s class and in
+    kind_lookup._plural_map, hence a new kind name per run and a reset of the lookup cache."""
+    from koreo.resource_function.reconcile import kind_lookup
+    kind_lookup._reset()
+    cfg = {"apiVersion": "test.koreo.dev/v1", "kind": "TestResource", "plural": "testresources",
+           "name": "obj", "namespace": "ns"}
+    if case.get("lookup"):
+        _KIND_COUNTER[0] += 1
+        cfg["kind"] = f"C13Widget{_KIND_COUNTER[0]}"
+        del cfg["plural"]
+    cfg.update(extra)
+    return cfg
+
+
 def run_rf(case):
     """A real ResourceFunction against the sentinel API. -> dict or None if prepare failed."""
     import celpy
@@ -468,8 +452,7 @@ def run_rf(case):
     from koreo.resource_function.reconcile import reconcile_resource_function
     from koreo.resource_function.structure import ResourceFunction
     b = Builder()
-    spec = {"apiConfig": {"apiVersion": "test.koreo.dev/v1", "kind": "TestResource", "plural": "testresources",
-                          "name": "obj", "namespace": "ns"},
+    spec = {"apiConfig": api_config(case),
             "resource": {"spec": {"v": 1}},
             "return": {"r": "=resource.spec.v"}}
     if case["preds"] is not None:
@@ -517,7 +500,7 @@ def term_pred(case, raw, obs) -> str:
 def term_vf(case, out) -> str:
     pre = "None" if not out["has"]["pre"] else "(Some " + clist([doc_tree(p) for p in case["preds"]], c_tree) + ")"
     pre_raw = copt(out["raws"].get("pre"), c_raw)
-    placeholder = ["raise", True]
+    placeholder = ["raise"]
 
     def site(name):
         if not out["has"][name]:
@@ -547,8 +530,7 @@ def run_rfc(case):
     from koreo.resource_function.reconcile import reconcile_resource_function
     from koreo.resource_function.structure import ResourceFunction
     b = Builder()
-    spec = {"apiConfig": {"apiVersion": "test.koreo.dev/v1", "kind": "TestResource", "plural": "testresources",
-                          "name": "obj", "namespace": "ns", "readonly": True},
+    spec = {"apiConfig": api_config(case, readonly=True),
             "resource": {"spec": {"v": 1}}}
     if case["preds"] is not None:
         spec["preconditions"] = [b.spec(p) for p in case["preds"]]
@@ -562,7 +544,7 @@ def run_rfc(case):
     if not (isinstance(prepared, tuple) and isinstance(prepared[0], ResourceFunction)):
         return None
     fn = prepared[0]
-    cl = Cluster(objects=[RFC_OBJECT])
+    cl = Cluster(objects=[dict(RFC_OBJECT, kind=spec["apiConfig"]["kind"])])
     with recording() as log:
         try:
             r = run_async(reconcile_resource_function(cl, LOC, fn, OWNER, celpy.json_to_cel(b.inputs)))
@@ -581,7 +563,8 @@ def run_rfc(case):
             continue
         trace.append(st)
         raws[st] = x
-    return {"obs": obs, "trace": trace, "raws": raws, "calls": [c["method"] for c in cl.calls],
+    return {"obs": obs, "trace": trace, "raws": raws,
+            "calls": [f"lookup_kind({k})" for k in cl.lookups] + [c["method"] for c in cl.calls],
             "has": {"pre": fn.preconditions is not None, "locals": fn.local_values is not None,
                     "post": fn.postconditions is not None, "return": fn.return_value is not None}}
 
@@ -593,7 +576,7 @@ def term_rfc(case, out) -> str:
     def site(name):
         if not out["has"][name]:
             return None
-        return out["raws"].get(name, ["raise", True])
+        return out["raws"].get(name, ["raise"])
 
     trace = clist(out["trace"], lambda s: SITES[s])
     return (f"CRfc {elems('preds', 'pre')} {copt(out['raws'].get('pre'), c_raw)} {copt(site('locals'), c_raw)} "
@@ -635,7 +618,7 @@ def oracle_rfc(case, out, pre_obs, post_obs):
 def term_rf(case, out) -> str:
     pre = "None" if not out["has"]["pre"] else "(Some " + clist([doc_tree(p) for p in case["preds"]], c_tree) + ")"
     pre_raw = copt(out["raws"].get("pre"), c_raw)
-    locals_ = "None" if not out["has"]["locals"] else f"(Some {c_raw(out['raws'].get('locals', ['raise', True]))})"
+    locals_ = "None" if not out["has"]["locals"] else f"(Some {c_raw(out['raws'].get('locals', ['raise']))})"
     trace = clist(out["trace"], lambda s: SITES[s])
     return (f"CRf {pre} {pre_raw} {locals_} {cstr(LOC)} {cbool(bool(out['touches']))} "
             f"{c_obs(out['obs'])} {trace}")
@@ -691,13 +674,9 @@ def leaf_value(leaf):
 CLS_OF_KIND = {"depSkip": 0, "skip": 1, "retry": 3, "permFail": 4}
 
 
-TREE_DUMP_DEFECT = "(tree_dump IndexError in the CELEvalError handler)"
-
-
 def escape_signature(prefix: str, exc: str, raws) -> str:
-    """Signature of an escaping exception; the known tree_dump defect gets its own."""
-    if exc == "IndexError" and any(r[0] == "raise" and len(r) > 1 and r[1] is False for r in raws):
-        return f"{prefix}: exception escapes {TREE_DUMP_DEFECT}"
+    """Signature of an escaping exception.  (Until /repo 4ee1f6b an IndexError from celpy's
+    tree_dump escaped the CELEvalError handlers; the reproducers are corpus regressions now.)"""
     return f"{prefix}: exception escapes"
 
 
@@ -852,12 +831,12 @@ NONBOOL_LEAVES = [["lit", "false"], ["lit", "true"], ["in", 5], ["in", 0], ["in"
 ERR_LEAVES = [["err", "=1/0"], ["err", "=inputs.nope"], ["err", "=inputs.nope.x"], ["err", "=to_ref({})"],
               ["err", "=from_json('{')"], ["err", "=[1][5]"], ["err", "=int('x')"],
               ["raise", "=[1].map(x, x/0)"], ["raise", "=[1, 2].filter(x, x/0 == 1)"],
-              # error VALUES whose tree celpy's tree_dump cannot print
+              # errors whose tree celpy's tree_dump cannot print (IndexError inside tree_dump), as
+              # values and raised: koreo must still answer PermFail (regression for /repo 4ee1f6b)
               ["err", "=inputs.nope == []"], ["err", "=inputs.nope ? 1 : {}"],
-              # RAISED errors with such a tree: koreo's except handler itself raises (known finding)
               ["raise", "=[1].map(x, inputs.nope == [])"]]
 # a Python ValueError inside celpy is caught by the nearest enclosing map literal, whose whole tree
-# becomes the error's tree: with `ok: {}` next to it that tree is undumpable (known finding)
+# becomes the error's tree: with `ok: {}` next to it tree_dump cannot print that tree either
 VALUE_ERROR_ASSERT = ["raise", "=[1, 2, 3].map(x, x > 1, x * 2)"]
 MSG_OK = [["lit", "plain message"], ["in", "from inputs"], ["in", "quote \" and\nnewline ü"], ["cel", "='a' + 'b'", "ab"],
           ["in", ""], ["in", 5], ["in", None], ["in", True], ["in", 2.5], ["in", "Error: not really"]]
@@ -1033,7 +1012,9 @@ def gen_rf(ctx: Ctx):
             for truth in itertools.product([True, False], repeat=n):
                 ps = [pred(["in", t], k, ["lit", f"message {i}"], ["lit", 10 + i])
                       for i, (k, t) in enumerate(zip(kinds, truth))]
-                yield {"mode": "rf", "preds": ps, "locals": RF_LOCALS[(n + sum(truth)) % 4], "tag": "rf-exhaustive"}
+                for lookup in (False, True):
+                    yield {"mode": "rf", "preds": ps, "locals": RF_LOCALS[(n + sum(truth)) % 4], "lookup": lookup,
+                           "tag": "rf-exhaustive"}
     n_cases = 150 if ctx.quick() else 2500
     made = 0
     while made < n_cases:
@@ -1046,7 +1027,8 @@ def gen_rf(ctx: Ctx):
             if vf_ok(p):
                 ps.append(p)
         made += 1
-        yield {"mode": "rf", "preds": ps if ps else None, "locals": rng.choice(RF_LOCALS), "tag": "rf-random"}
+        yield {"mode": "rf", "preds": ps if ps else None, "locals": rng.choice(RF_LOCALS),
+               "lookup": rng.random() < 0.5, "tag": "rf-random"}
 
 
 RFC_RETURNS = [None, M(("r", L(["cel", "=resource.spec.v", 1]))), M(("r", L(["err", "=1/0"]))),
@@ -1063,7 +1045,15 @@ def gen_rfc(ctx: Ctx):
                         for i, (k, t) in enumerate(zip(kinds, truth))]
                 pre = None if (n + sum(truth)) % 2 else [pred(["in", True], "skip", ["lit", "pre"])]
                 yield {"mode": "rfc", "preds": pre, "locals": RF_LOCALS[(n + sum(truth)) % 2], "post": post,
-                       "ret": RFC_RETURNS[1 + (len(kinds) + sum(truth)) % 3], "tag": "rfc-exhaustive"}
+                       "ret": RFC_RETURNS[1 + (len(kinds) + sum(truth)) % 3], "lookup": bool(sum(truth) % 2),
+                       "tag": "rfc-exhaustive"}
+    # preconditions that decide, for a kind whose plural must be looked up: no lookup either
+    for kinds in itertools.product(KINDS, repeat=2):
+        for truth in itertools.product([True, False], repeat=2):
+            pre = [pred(["in", t], k, ["lit", f"pre message {i}"], ["lit", 30 + i])
+                   for i, (k, t) in enumerate(zip(kinds, truth))]
+            yield {"mode": "rfc", "preds": pre, "locals": None, "post": None, "ret": RFC_RETURNS[1], "lookup": True,
+                   "tag": "rfc-pre-lookup"}
     n_cases = 150 if ctx.quick() else 2500
 
     def plist(n):
@@ -1080,7 +1070,7 @@ def gen_rfc(ctx: Ctx):
         pre = plist(rng.choice([0, 0, 1, 2, 4]))
         post = plist(rng.choice([0, 1, 2, 3, 6, 20]))
         yield {"mode": "rfc", "preds": pre, "locals": rng.choice(RF_LOCALS[:2] + [None]), "post": post,
-               "ret": rng.choice(RFC_RETURNS), "tag": "rfc-random"}
+               "ret": rng.choice(RFC_RETURNS), "lookup": rng.random() < 0.5, "tag": "rfc-random"}
 
 
 def gen_cases(ctx: Ctx):
@@ -1194,6 +1184,7 @@ def check_rf(ctx: Ctx, case):
                          observed={"spec": spec, "inputs": b2.inputs, "result": out["obs"], "trace": out["trace"],
                                    "api_touches": out["touches"]}))
     ctx.count("rf:cluster touched" if out["touches"] else "rf:cluster not touched")
+    ctx.count("rf:plural " + ("to be looked up" if case.get("lookup") else "given"))
     if has_raise(case["preds"] or []):
         return None
     return term_rf(case, out)
@@ -1226,6 +1217,7 @@ def check_rfc(ctx: Ctx, case):
     for st in out["trace"]:
         ctx.count(f"rfc-site:{st}")
     ctx.count(f"rfc-calls:{len(out['calls'])}")
+    ctx.count("rfc:plural " + ("to be looked up" if case.get("lookup") else "given"))
     if has_raise((case["preds"] or []) + (case.get("post") or [])):
         return None
     return term_rfc(case, out)
